@@ -1,0 +1,69 @@
+//go:build verif
+
+// Contracts for govc (see /verif/DESIGN.md). Comment-only: no executable code with or without the tag.
+
+package apiregserver
+
+//@ import http "net/http"
+//@ import net "net"
+//@ import pb "github.com/refraction-networking/conjure/proto"
+//@ import metrics "github.com/refraction-networking/conjure/pkg/metrics"
+
+// C11: the HTTP registration handlers. For every request (any method, any headers, any body bytes and therefore any
+// decoded C2SWrapper, including absent sub-messages) the handler neither dereferences nil nor indexes out of range
+// ("checks safety": one obligation per dereference / index / slice expression), and it always produces a status line.
+// The server object is the one NewAPIRegServer builds (non-nil processor and logger; metrics from the caller), the
+// request is one net/http hands to a handler (non-nil request, non-nil Body).
+
+//@ func getRemoteAddr(r *http.Request) net.IP
+//@   requires r != nil
+//@   ensures @C11: true
+//@   assigns nothing
+//@   checks safety
+//@ loop 1:
+//@   invariant r != nil && 0 <= iter && iter <= len(clientIPHeaderNames)
+
+//@ func parseIP(addrPort string) net.IP
+//@   ensures @C11: true
+//@   assigns nothing
+//@   checks safety
+
+//@ func (s *APIRegServer) getC2SFromReq(w http.ResponseWriter, r *http.Request) (*pb.C2SWrapper, error)
+//@   requires s != nil && s.logger != nil && w != nil && r != nil && r.Body != nil
+//@   ensures @C11: result1 == nil ==> result0 != nil
+//@   ensures @C11: result1 != nil ==> responded(w)
+//@   ensures @C11: result1 == nil ==> responded(w) == old(responded(w))
+//@   assigns responded(w)
+//@   checks safety
+
+//@ func (s *APIRegServer) compareClientConfGen(genNum uint32) *pb.ClientConf
+//@   requires s != nil && s.logger != nil && s.metrics != nil && !held(&s.ccMutex) && rheld(&s.ccMutex) == 0
+//@   ensures @C11: !held(&s.ccMutex) && rheld(&s.ccMutex) == 0
+//@   assigns rheld(&s.ccMutex), acq(&s.ccMutex)
+//@   checks safety
+
+//@ func (s *APIRegServer) register(w http.ResponseWriter, r *http.Request)
+//@   requires s != nil && s.logger != nil && s.processor != nil && s.metrics != nil && w != nil && r != nil && r.Body != nil
+//@   requires !held(&s.ccMutex) && rheld(&s.ccMutex) == 0
+//@   ensures @C11: responded(w)
+//@   checks safety
+
+//@ func (s *APIRegServer) registerBidirectional(w http.ResponseWriter, r *http.Request)
+//@   requires s != nil && s.logger != nil && s.processor != nil && s.metrics != nil && w != nil && r != nil && r.Body != nil
+//@   requires !held(&s.ccMutex) && rheld(&s.ccMutex) == 0
+//@   ensures @C11: responded(w)
+//@   checks safety
+
+// the registration processor behind the handler (implemented by *regprocessor.RegProcessor; its own entry points are
+// under contract in that package): a nil error comes with a response
+//@ func (p registrar) RegisterBidirectional(c2s *pb.C2SWrapper, src pb.RegistrationSource, addr []byte) (*pb.RegistrationResponse, error)
+//@   ensures result1 == nil ==> result0 != nil
+//@   assigns memory
+//@ func (p registrar) RegisterUnidirectional(c2s *pb.C2SWrapper, src pb.RegistrationSource, addr []byte) error
+//@   assigns memory
+
+// counters of another package (its own lock and map)
+//@ func (m *metrics.Metrics) Add(name string, val int)
+//@   requires m != nil
+//@   assigns nothing
+//@   trusted
